@@ -279,7 +279,7 @@ fn run(tier: &str, seed: u64, checked: bool, rep: &mut Report) {
     ] {
         run_write_case(&mut rng, &w, checked, rep);
     }
-    let n = if tier == "thorough" { 60_000 } else { 3_000 };
+    let n = if tier == "thorough" { 60_000 } else { 10_000 };
     for _ in 0..n {
         let w = gen_write_case(&mut rng);
         run_write_case(&mut rng, &w, checked, rep);
